@@ -14,6 +14,7 @@ PROFILE = {
                 'partial_binary': 4, 'session': 2, 'hostile': 3},
     'connect_outcomes': {'accept': 5, 'false': 1, 'refuse': 2, 'raise': 2},
     'event_raise': 0.2, 'disconnect_raise': 0.25,
+    'cancel_p': 0.5,             # coroutine handlers: half of the accept / return None / handled outcomes end with CancelledError
     'no_sid_rooms': True,        # the model-free probe searches the object graph for the departed ids as strings
 }
 
@@ -50,7 +51,14 @@ def oracle(cfg, trace, residue):
     fails = []
     for op, im, _ in trace:
         if op['op'] == 'lost' and im.get('probe'):
-            fails.append((None, 'after the loss of %s the server still refers to it in %s' % (op['t'], im['probe'])))
+            fails.append((None, 'after the loss of %s the server still refers to it in %s%s' % (
+                op['t'], im['probe'],
+                ' (a coroutine handler ended with asyncio.CancelledError)' if im.get('handler_cancelled') else '')))
+        if im.get('escaped'):
+            # whatever a handler does, the clean-up must run to its end: nothing may abort the server's engine.io
+            # callback (the harness caught it and went on, so that the probes above still ran)
+            fails.append((None, 'an exception that is not an Exception escaped from the server\'s engine.io callback / '
+                                'API during %r: %s' % (S._brief(op), ', '.join(im['escaped']))))
     open_t = set()
     for op, im, _ in trace:
         if op['op'] == 'open':
@@ -71,6 +79,10 @@ def nontrivial(cfg, trace):
     for op, im, _ in trace:
         if im.get('handler_raised'):
             kinds.add('raise')
+        if im.get('handler_cancelled'):
+            kinds.add('raise')
+            if op['op'] == 'lost':
+                _CTX[0].count('losses_with_cancelled_disconnect_handler')
         if op['op'] == 'emit' and op.get('cb') is not None and im['sends']:
             kinds.add('cb')
         if op.get('_hostile') or op['op'] == 'frameval':
@@ -148,7 +160,11 @@ def come_and_go(mode, n):
         r.close()
 
 
+_CTX = [None]
+
+
 def run(ctx):
+    _CTX[0] = ctx
     C.proof_step(ctx, ['the object-graph probe stands for "memory reachable from the server" (allocator not modelled)'])
     S.run_cases(ctx, PROFILE, ctx.scale(150, 3000), 50, oracle=oracle, nontrivial=nontrivial, final_lose_all=True,
                 gen_hook=gen_hook, probe_pre=probe_pre, probe_post=probe_post)
@@ -170,7 +186,9 @@ def run(ctx):
     ctx.coverage['graph_sizes'] = sizes
     ctx.coverage['rule'] = ('client histories (connects to several namespaces, rooms, events, unanswered callbacks, refused '
                             'connections, partial binary packets, malformed packets, sessions) with any handler raising at any '
-                            'invocation, ended by transport loss at any point; after every loss the real server is searched for '
+                            'invocation -- HandlerError, or asyncio.CancelledError out of a coroutine handler (out of an await on a '
+                            'cancelled future, or raised directly; function and class-based handlers) --, ended by transport loss '
+                            'at any point; after every loss the real server is searched for '
                             'references to the transport or its session ids, and after the last one compared with empty; plus a '
                             'model-free walk of the object graph after 1/10/100(/1000) come-and-go clients. non-trivial = history '
                             'with a partial binary packet and >=2 of {raising handler, unanswered callback, malformed frame}')
